@@ -152,6 +152,7 @@ fn cmd_check(args: &[String]) -> i32 {
             violation: Some(min_v.clone()),
             note: format!("found by `mlsim check {property} --tier {tier}` with VERIF_SEED={seed}, run {i}"),
             build: BUILD.to_string(),
+            prim: if min_v.oracle == "provider-cross-check" { out.prim.clone() } else { None },
         };
         match write_replay(&format!("{verif_dir}/replays"), &rf) {
             Ok(path) => {
@@ -243,6 +244,32 @@ fn cmd_check(args: &[String]) -> i32 {
 fn cmd_replay(args: &[String]) -> i32 {
     let Some(path) = args.first() else { return 2 };
     let quiet = args.iter().any(|a| a == "--quiet");
+    // a recorded provider disagreement is evaluated on its own: same two providers, same inputs
+    if let Ok(data) = std::fs::read(path) {
+        if let Ok(rf) = serde_json::from_slice::<ReplayFile>(&data) {
+            if let Some(pc) = &rf.prim {
+                return match crypto::replay_prim(pc) {
+                    Ok(Some(d)) => {
+                        if !quiet {
+                            println!("VIOLATION property={} replay={path}", rf.property);
+                            println!("  oracle=provider-cross-check primitive={} primary={} cross={} suite={}\n  {d}", pc.op, pc.primary, pc.cross, pc.suite);
+                        }
+                        1
+                    }
+                    Ok(None) => {
+                        if !quiet {
+                            println!("no violation on replay (the two providers agree on the recorded {} call)", pc.op);
+                        }
+                        0
+                    }
+                    Err(e) => {
+                        eprintln!("HARNESS-ERROR: {e}");
+                        2
+                    }
+                };
+            }
+        }
+    }
     match replay_file(path) {
         Err(e) => {
             eprintln!("HARNESS-ERROR: {e}");
